@@ -13,7 +13,7 @@ def run(chk):
     if r.violation != "LabelsKeptStrict":
         chk.machinery_errors.append("negative config was not rejected by TLC: %r" % r.violation)
     c01.run_pipeline(chk, want=("C02",),
-                     mc=("MC_Pipeline_freq_quick.cfg", "MC_Pipeline_freq_full.cfg"),
+                     mc=("MC_Pipeline_freq_quick.cfg", ("MC_Pipeline_freq_full.cfg", "MC_Pipeline_freq_d3.cfg")),
                      gen_d1="Gen_Pipeline_freq_d1.cfg", gen_sim="Gen_Pipeline_freq_sim.cfg",
                      quick_cases=2500, full_cases=80000)
     chk.assumptions.append("label comparisons: 8 ulp of the largest |label| per operation")
